@@ -131,6 +131,7 @@ DoAppendList == /\ sl.type # "none" /\ Len(sl.entries) > 0
                 /\ db' = Append(db, sl) /\ sl' = NoList /\ last' = Rec("appendlist", "-", "-", "-", "ok")
 
 (* remove a whole list: the k-th one, or (k beyond the end) a list the database does not hold *)
+\* @type: Seq(Str);
 KName == <<"1", "2", "3", "4", "5", "6", "7", "8", "9">>
 \* @type: Int => Bool;
 DoRemoveList(k) == /\ k \in 1..9 /\ k <= Len(db) + 1 /\ UNCHANGED sl
@@ -145,8 +146,11 @@ DoListQuery(o, d) == /\ sl.type # "none" /\ d.types \cap {sl.type} # {} /\ UNCHA
 (* list-valued membership query: are all entries of the scratch list in the database?  The library looks at the first list with the  *)
 (* scratch list's type and entry size only, so the answer is fixed in two cases: some entry is nowhere in the collection (false); *)
 (* exactly one list of that type and size exists and holds them all (true)                                                        *)
+\* @type: ($list, $list) => Bool;
 SameShape(l, s) == l.type = s.type /\ l.size = s.size
+\* @type: ($list, $list) => Bool;
 AllIn(l, s) == \A k \in DOMAIN s.entries : \E m \in DOMAIN l.entries : l.entries[m].owner = s.entries[k].owner /\ l.entries[m].data = s.entries[k].data
+\* @type: Str;
 ListQueryDbMust == IF \E k \in DOMAIN sl.entries : ~InFlat(db, sl.type, sl.entries[k].owner, sl.entries[k].data) THEN "false"
                    ELSE IF \E i \in DOMAIN db : SameShape(db[i], sl) /\ AllIn(db[i], sl) /\ \A j \in DOMAIN db : SameShape(db[j], sl) => j = i THEN "true"
                    ELSE "may"
